@@ -405,6 +405,7 @@ func c17TokenPos(c *Ctx) {
 func c17LnCol(c *Ctx) {
 	r, t := c.R, c.T
 	c17LineBreaks(c)
+	posCacheReinit(c, "LNCOL")
 	for _, fn := range []*ssa.Function{t.Method(pToken, "PosCache", "LnCol"), t.Func(pToken, "LnCol")} {
 		if fn == nil {
 			r.Undecided("LNCOL", "token.LnCol routines", "pkg/token/token.go", "unresolved anchor")
@@ -808,49 +809,60 @@ func c17LineBreaks(c *Ctx) {
 		{
 			nNL, okNL := 0, true
 			extra := ""
+			// the loop may live in a helper of the same package that fn calls on every path (e.g. a Reset method)
+			cands := []*ssa.Function{fn}
 			allInstrs(fn, func(in ssa.Instruction) {
-				iff, ok := in.(*ssa.If)
-				if !ok {
-					return
-				}
-				bo, ok := iff.Cond.(*ssa.BinOp)
-				if !ok || bo.Op != token.EQL {
-					return
-				}
-				if k, isC := constInt(bo.Y); !isC || k != 10 {
-					return
-				}
-				nNL++
-				// the true successor does the bookkeeping directly
-				tb := iff.Block().Succs[0]
-				var loop *natLoop
-				for _, l := range naturalLoops(fn) {
-					if l.Blocks[iff.Block()] && (loop == nil || len(l.Blocks) < len(loop.Blocks)) {
-						loop = l
-					}
-				}
-				for _, ec := range controlling(tb) {
-					if ec.If == iff.Block() || loop == nil || !loop.Blocks[ec.If] || ec.If == loop.Header {
-						continue // only per-iteration conditions matter (not the entry checks, not the loop test)
-					}
-					cs := ec.String()
-					// loop conditions of the range are fine; any other data condition is not
-					if strings.Contains(cs, "rangeindex") || strings.Contains(cs, "next(") || strings.Contains(cs, "#0") {
-						continue
-					}
-					if b2, ok := ec.Cond.(*ssa.BinOp); ok && (strings.Contains(path(b2.X), "phi:") && strings.Contains(path(b2.Y), "len(")) {
-						continue
-					}
-					okNL = false
-					extra = cs
-				}
-				if len(tb.Instrs) > 0 {
-					if i2, ok := tb.Instrs[len(tb.Instrs)-1].(*ssa.If); ok {
-						okNL = false
-						extra = "a further test follows: " + condStr(i2.Cond)
+				if call, ok := in.(*ssa.Call); ok {
+					if g := call.Call.StaticCallee(); g != nil && g.Pkg == fn.Pkg && len(g.Blocks) > 0 && g != fn && len(controlling(call.Block())) == 0 {
+						cands = append(cands, g)
 					}
 				}
 			})
+			for _, fn := range cands {
+				allInstrs(fn, func(in ssa.Instruction) {
+					iff, ok := in.(*ssa.If)
+					if !ok {
+						return
+					}
+					bo, ok := iff.Cond.(*ssa.BinOp)
+					if !ok || bo.Op != token.EQL {
+						return
+					}
+					if k, isC := constInt(bo.Y); !isC || k != 10 {
+						return
+					}
+					nNL++
+					// the true successor does the bookkeeping directly
+					tb := iff.Block().Succs[0]
+					var loop *natLoop
+					for _, l := range naturalLoops(fn) {
+						if l.Blocks[iff.Block()] && (loop == nil || len(l.Blocks) < len(loop.Blocks)) {
+							loop = l
+						}
+					}
+					for _, ec := range controlling(tb) {
+						if ec.If == iff.Block() || loop == nil || !loop.Blocks[ec.If] || ec.If == loop.Header {
+							continue // only per-iteration conditions matter (not the entry checks, not the loop test)
+						}
+						cs := ec.String()
+						// loop conditions of the range are fine; any other data condition is not
+						if strings.Contains(cs, "rangeindex") || strings.Contains(cs, "next(") || strings.Contains(cs, "#0") {
+							continue
+						}
+						if b2, ok := ec.Cond.(*ssa.BinOp); ok && (strings.Contains(path(b2.X), "phi:") && strings.Contains(path(b2.Y), "len(")) {
+							continue
+						}
+						okNL = false
+						extra = cs
+					}
+					if len(tb.Instrs) > 0 {
+						if i2, ok := tb.Instrs[len(tb.Instrs)-1].(*ssa.If); ok {
+							okNL = false
+							extra = "a further test follows: " + condStr(i2.Cond)
+						}
+					}
+				})
+			}
 			r.Ob("LNCOL", relName(fn)+" counts every line break", t.Pos(fn.Pos()), nNL == 1 && okNL, fmt.Sprintf("%d tests `c == '\\n'`; extra condition on the bookkeeping: %q — a line break that is not recorded shifts every later position to the previous line", nNL, extra))
 		}
 	}
